@@ -1389,6 +1389,12 @@ class XMLSchemaBase(XsdValidator, ElementPathMixin[Union[SchemaType, XsdElement]
                                 else:
                                     identities[identity] = identity.get_counter(ancestors[k])
 
+                        # Inheritable attributes of the ancestors, for XSD 1.1 type alternatives
+                        context.inherited = {
+                            k: v for a, xa in zip(ancestors, xsd_ancestors)
+                            if isinstance(xa, XsdElement) and xa.inheritable
+                            for k, v in a.attrib.items() if k in xa.inheritable
+                        }
                         prev_ancestors = ancestors[:]
 
                 if root_by_name and elem is resource.root:
@@ -1489,6 +1495,11 @@ class XMLSchemaBase(XsdValidator, ElementPathMixin[Union[SchemaType, XsdElement]
             selector = context.source.iter_depth(mode=2)
             if context.source.is_lazy():
                 context.level = context.source.lazy_depth  # not root elements
+                xsd_root = self.maps.elements.get(context.source.root.tag)
+                if context.level == 1 and xsd_root is not None and xsd_root.inheritable:
+                    # Inheritable attributes of the root, for XSD 1.1 type alternatives
+                    context.inherited = {k: v for k, v in context.source.root.attrib.items()
+                                         if k in xsd_root.inheritable}
 
         for elem in selector:
             xsd_element = self.get_element(elem.tag, schema_path, context.namespaces)
